@@ -245,7 +245,10 @@ static void uv__udp_recvmsg(uv_udp_t* handle) {
     }
     assert(buf.base != NULL);
 
-    if (uv_udp_using_recvmmsg(handle)) {
+    /* A buffer that cannot hold a single maximum-size datagram gives
+     * recvmmsg() no room at all; receive into it with recvmsg() instead.
+     */
+    if (uv_udp_using_recvmmsg(handle) && buf.len >= UV__UDP_DGRAM_MAXSIZE) {
       nread = uv__udp_recvmmsg(handle, &buf);
       if (nread > 0)
         count -= nread;
